@@ -140,9 +140,9 @@ func (s *relState) apply(sum relState) {
 }
 
 type fnLocks struct {
-	before  map[ssa.Instruction]relState // state before each instruction
-	summary relState                     // at return, after deferred calls
-	atRet   relState                     // at return, before deferred calls
+	before        map[ssa.Instruction]relState // state before each instruction
+	summary       relState                     // at return, after deferred calls
+	atRet         relState                     // at return, before deferred calls
 	rawUnbalanced string
 }
 
